@@ -11,8 +11,14 @@
    NaN); pandas dtype inference and float formatting are NOT modelled.
    The operation object is an explicit value [opstate] returned by every
    [do_op], so that attribute mutation across files is visible.
-   [fixes] selects, per known defect, the code as it is (false) or the
-   proposed repair (true).  Models only -- proofs in Proofs/RemodelProofs.v. *)
+   [fixes] has one boolean per defect that has since been repaired in /repo:
+   true = the code as it is now, false = the behaviour BEFORE the fix commit
+   (kept only as the record of the repaired defect):
+     fx_reorder  C17-F1 e8c17b3   fx_factor C17-F2 192568b   fx_match C17-F3 b484e3c
+     fx_copy     C17-F4 adebd46   fx_gaps   C17-F6 b5c611b   fx_disjoint C17-F7 6cfe711
+   (C17-F5 e888c67 and C17-F8 55a866d concern pandas dtype / hash-seed effects the
+   model never contained: they have no switch, their repair is tested only.)
+   [all_fixes] is the CURRENT /repo.  Models only -- proofs in Proofs/RemodelProofs.v. *)
 From Coq Require Import List NArith ZArith Arith Bool.
 From HV Require Import Base.Res Base.Str Model.RemodelJson Gen.RemodelParams.
 Import ListNotations.
@@ -173,15 +179,16 @@ Inductive opstate :=
                    (match_columns : option (list str))
 | SplitRows (anchor_column : str) (new_events : list (str * new_event)) (remove_parent_row : bool).
 
-(* which proposed repairs are applied (false = the code as it is) *)
+(* per repaired defect: true = the current code, false = the behaviour before the fix commit named above *)
 Record fixes := {
-  fx_reorder : bool;   (* reorder_columns: ordered = list(self.column_order) *)
-  fx_factor : bool;    (* factor_column: defaults for absent factor_values / factor_names *)
-  fx_match : bool;     (* merge_consecutive: absent match_columns = [] *)
-  fx_copy : bool;      (* split_rows: absent copy_columns = [] *)
-  fx_gaps : bool;      (* merge_consecutive._update_durations: skip unused group numbers *)
-  fx_disjoint : bool   (* remap_columns.validate_input_data: names of source+destination distinct *)
+  fx_reorder : bool;   (* e8c17b3 reorder_columns: ordered = list(self.column_order) *)
+  fx_factor : bool;    (* 192568b factor_column: defaults for absent factor_values / factor_names *)
+  fx_match : bool;     (* b484e3c merge_consecutive: absent match_columns = [] *)
+  fx_copy : bool;      (* adebd46 split_rows: absent copy_columns = [] *)
+  fx_gaps : bool;      (* b5c611b merge_consecutive._update_durations: skip unused group numbers *)
+  fx_disjoint : bool   (* 6cfe711 remap_columns.validate_input_data: names of source+destination distinct *)
 }.
+(* the behaviour before ALL the fix commits (record only) / the current code *)
 Definition no_fixes : fixes := Build_fixes false false false false false false.
 Definition all_fixes : fixes := Build_fixes true true true true true true.
 
@@ -264,7 +271,7 @@ Definition dot_name (cn v : str) : str := cn ++ [ch_dot] ++ v.
 Definition do_factor_column (fx : fixes) (cn : str) (values names : option (list str)) (t : table)
   : res table :=
   if fx_factor fx then
-    (* repaired: if not factor_values: values = df[col].dropna().unique();
+    (* current code (since 192568b): if not factor_values: values = df[col].dropna().unique();
                  if not factor_names: names = [col + '.' + str(v) for v in values] *)
     let* values1 :=
       match values with
